@@ -326,6 +326,15 @@ class SymChecker:
             raise PathAbort()
         return r
 
+    def attempt(self, name, f, *a, **k):
+        """like call, but a raise is recorded as a failed clause `name:noraise` without ending the path;
+        returns None in that case"""
+        r = self.call_any(f, *a, **k)
+        if isinstance(r, Raised):
+            self._concrete_fail(name + ':noraise', 'raised %s: %s' % (r.type, str(r.exc)[:200]))
+            return None
+        return r
+
     def call_any(self, f, *a, **k):
         self.ncalls += 1
         try:
@@ -382,12 +391,18 @@ class SymChecker:
             self._add(Oblig(name, 0, 'proved', 'exec'))
             return
         bound = SReal.lift(tol) * (SReal.lift(scale) if scale is not None else 1)
+        same = 0
         for i, (x, y) in enumerate(zip(va, vb)):
+            if x is y:
+                same += 1          # the very same term object: nothing to prove
+                continue
             if isinstance(x, (bool, SBool)) or isinstance(y, (bool, SBool)):
                 self.true('%s[%d]' % (name, i), sc.tosbool(x) == sc.tosbool(y)) if isinstance(x, SBool) or isinstance(y, SBool) \
                     else self.true('%s[%d]' % (name, i), x == y)
                 continue
             self._prove_small(name, i, SReal.lift(x) - SReal.lift(y), bound)
+        if same:
+            self._add(Oblig(name, 0, 'proved', 'identical-terms'))
 
     def zero(self, name, a, tol=1e-9, scale=None):
         sa, va = flatten(a, numeric=True)
